@@ -34,11 +34,11 @@ type WinnersCase struct {
 }
 
 func runC16Winners(t *testing.T, c WinnersCase) (v *h.Violation, info h.Info) {
-	synctest.Test(t, func(t *testing.T) { v = runC16WinnersBubble(c, &info) })
+	synctest.Test(t, func(t *testing.T) { v = runC16WinnersBubble(c, &info, "C16") })
 	return
 }
 
-func runC16WinnersBubble(c WinnersCase, info *h.Info) *h.Violation {
+func runC16WinnersBubble(c WinnersCase, info *h.Info, prop string) *h.Violation {
 	svc := fake.NewSvc()
 	svc.Set("d", 1, []byte("dv"))
 	svc.Set("x", 3, []byte(xVal))
@@ -113,6 +113,7 @@ func runC16WinnersBubble(c WinnersCase, info *h.Info) *h.Violation {
 					u, err := setec.NewUpdater(ctxs[i], st, "x", func(b []byte) (string, error) { return string(b), nil })
 					if r.err = err; err == nil {
 						r.val = u.Get()
+						r.again = u.Get
 					}
 				case "apply":
 					var tgt applyTarget
@@ -127,6 +128,7 @@ func runC16WinnersBubble(c WinnersCase, info *h.Info) *h.Violation {
 					hd, err := st.LookupSecret(ctxs[i], "x")
 					if r.err = err; err == nil {
 						r.val = string(hd.Get())
+						r.again = func() string { return string(hd.Get()) }
 					}
 				}
 			}()
@@ -170,6 +172,32 @@ func runC16WinnersBubble(c WinnersCase, info *h.Info) *h.Violation {
 		}
 		if r.val != xVal {
 			return h.V("working-handle", "caller %d got %q, the service serves %q", i, r.val, xVal)
+		}
+	}
+	if survivors > 0 {
+		// Every handle and updater the callers ended up with - whichever of the successive flights it came
+		// from - follows the next version the service activates.
+		svc.Set("x", 4, []byte("8"))
+		if err := st.Refresh(context.Background()); err != nil {
+			return h.V("harness", "Refresh: %v", err)
+		}
+		for i, r := range results {
+			if cancelled[i] || r.again == nil || r.err != nil {
+				continue
+			}
+			if got := r.again(); got != "8" {
+				clause := "polled-after-lookup"
+				if prop == "C11" {
+					clause = "fresh-after-successful-poll"
+				}
+				return h.V(clause, "caller %d (%s) obtained its handle after %d winner(s) had given up (%d requests were answered in all); after the service activated version 4 and Refresh returned nil it still yields %q, want %q", i, c.Entries[i], len(cancelled), len(reqs)-len(cancelled), got, "8")
+			}
+		}
+		if len(reqs)-len(cancelled) >= 2 {
+			info.Class("several-answered-flights-for-one-name")
+		}
+		if prop == "C11" {
+			return nil
 		}
 	}
 	if survivors > 0 {
@@ -318,7 +346,34 @@ var c16lookupCache = &h.Campaign[LookupCacheCase]{
 	Key: func(c LookupCacheCase) any { return fmt.Sprintf("%v/%d", c, nonce.Add(1)) },
 }
 
-func init() { c16winners.Register(); c16lookupCache.Register() }
+// C11 (handles obtained through repeated lookups): "when Refresh completes without error, every secret
+// the store knows yields the version that was active during that poll" - also through handles that
+// were handed out by DIFFERENT lookup flights for the same name (waiting callers each start a flight of
+// their own after a winner gave up). The same scenarios as the C16 winners; only freshness is judged.
+var c11lookups = &h.Campaign[WinnersCase]{
+	Prop: "C11", Sub: "handles-from-repeated-lookups",
+	Rule: "rapid + testing/synctest: the C16 'winners' scenarios (2-8 callers look one unknown name up, the first 1-5 requests hang and their owners are cancelled, the rest is answered by one or several successive flights); then the service activates a new version, Refresh returns nil, and every handle / updater any caller obtained must yield the new bytes; non-trivial = at least two answered flights for the name; distinct by scenario",
+	Quick: 800, Thorough: 60000,
+	Gen:   func(rt *rapid.T) WinnersCase { return c16winners.Gen(rt) },
+	Run: func(t *testing.T, c WinnersCase) (v *h.Violation, info h.Info) {
+		synctest.Test(t, func(t *testing.T) { v = runC16WinnersBubble(c, &info, "C11") })
+		nt := false
+		for _, cl := range info.Classes {
+			if cl == "several-answered-flights-for-one-name" {
+				nt = true
+			}
+		}
+		info.NonTrivial = nt
+		if v != nil && v.Clause != "fresh-after-successful-poll" {
+			v = nil // everything else is C16's to report
+		}
+		return
+	},
+}
+
+func init() { c16winners.Register(); c16lookupCache.Register(); c11lookups.Register() }
+
+func TestC11HandlesFromRepeatedLookups(t *testing.T) { c11lookups.Check(t) }
 
 func TestC16Winners(t *testing.T)     { c16winners.Check(t) }
 func TestC16LookupCache(t *testing.T) { c16lookupCache.Check(t) }
